@@ -168,7 +168,25 @@ struct RealmSel
 	std::vector<std::string> dstore; std::vector<const char *> dptr;
 	std::unique_ptr<RealmBase> own;
 	std::unique_ptr<Message> msg;        // the message the probed field is put into (created on first use)
+	// every other probe re-uses the field object of the previous probe and only changes its value (as the decoder
+	// and applications do with set_from_raw / operator=): a lookup must describe the value the field holds *now*
+	std::unique_ptr<BaseField> kept;
+	unsigned nprobe = 0;
 };
+
+static bool reuse_field(BaseField *bf, char t, const std::string& text)
+{
+	if (text.empty())
+		return false;
+	const FieldTrait::FieldType ut(bf->get_underlying_type());
+	switch (t)      // fix8's own punning between same-layout Field<T, tag> instantiations; only where the layout really is that one
+	{
+	case 'i': if (ut != FieldTrait::ft_int) return false; static_cast<Field<int, 0> *>(bf)->set_from_raw(text); return true;
+	case 'c': return false;    // Boolean fields share the char realm type but hold a bool: no re-use for chars
+	case 'f': if (ut != FieldTrait::ft_float) return false; static_cast<Field<fp_type, 0> *>(bf)->set_from_raw(text); return true;
+	default: if (ut != FieldTrait::ft_string) return false; static_cast<Field<f8String, 0> *>(bf)->set_from_raw(text); return true;
+	}
+}
 
 static std::string fmt_double(double d)
 {
@@ -226,6 +244,8 @@ static void realm_probe(RealmSel& r, const std::string& arg, bool withfield)
 	BaseField *bf(nullptr);
 	if (!withfield)
 		;
+	else if (r.kept && (++r.nprobe & 1) && reuse_field(r.kept.get(), r.t, text))
+		bf = r.kept.release();
 	else if (r.synth)
 	{
 		switch (r.t)
@@ -265,7 +285,7 @@ static void realm_probe(RealmSel& r, const std::string& arg, bool withfield)
 	if (!l2.empty() && l2.back() == '\n')      // the endl that ends the field's line
 		l2.pop_back();
 	split_printed(l2, vtext, ev, "qhas", "qdesc", "qshape");
-	delete msg->remove(r.fnum);
+	r.kept.reset(msg->remove(r.fnum));
 	ev.emit();
 }
 
@@ -278,17 +298,33 @@ static std::string be_json(unsigned key, const BaseEntry *be)
 	return s;
 }
 
+/// The three accessors of GeneratedTable (find_ptr, find_pair_ptr, find_ref) looked up with the same key.
+/// Returns find_ptr's answer if all three agree, otherwise a pointer to a poison entry so that the
+/// disagreement shows up as a hit with an impossible field number.
+alignas(16) static char g_poison_store[256];
+#define g_poison_be (*reinterpret_cast<const BaseEntry *>(g_poison_store))
+template<typename Tab, typename Key, typename Val>
+static const Val *agree(const Tab& tb, const Key& key, const Val *poison)
+{
+	const Val *a(tb.find_ptr(key));
+	auto pr(tb.find_pair_ptr(key));
+	const Val *b(pr ? &pr->_value : nullptr);
+	const Val *r(nullptr);
+	try { r = &tb.find_ref(key); } catch (f8Exception&) { r = nullptr; }
+	return (a == b && a == r) ? a : poison;
+}
+
 static void scan(const F8MetaCntx& c, const std::string& tab, unsigned lo, unsigned hi)
 {
 	std::string hits("[");
 	unsigned n(0);
 	for (unsigned k(lo); k <= hi; ++k)
 	{
-		const BaseEntry *be(tab == "flu" ? c.find_be(static_cast<unsigned short>(k)) : c._be.find_ptr(k));
+		const BaseEntry *be(tab == "flu" ? c.find_be(static_cast<unsigned short>(k)) : agree(c._be, k, &g_poison_be));
 		if (be)
 		{
 			if (n++) hits += ",";
-			hits += be_json(k, be);
+			hits += be == &g_poison_be ? "[" + std::to_string(k) + ",65535,\"ACCESSORS_DISAGREE\",0]" : be_json(k, be);
 		}
 	}
 	hits += "]";
@@ -431,15 +467,22 @@ int main(int, char **)
 			else if (c == "lookbe")
 			{
 				const unsigned hi(strtoul(t[2].c_str(), 0, 10)), lo(strtoul(t[3].c_str(), 0, 10)), key(hi * 65536u + lo);
-				const BaseEntry *be(cx(t[1])._be.find_ptr(key));
-				pj::Ev("Lookup").s("tab", "be").i("hi", hi).i("lo", lo).b("hit", be != nullptr).i("fnum", be ? be->_fnum : 0)
-					.s("ent", be && be->_name ? be->_name : "").emit();
+				const BaseEntry *be(agree(cx(t[1])._be, key, &g_poison_be));
+				pj::Ev("Lookup").s("tab", "be").i("hi", hi).i("lo", lo).b("hit", be != nullptr).i("fnum", be == &g_poison_be ? 65535 : be ? be->_fnum : 0)
+					.s("ent", be == &g_poison_be ? "ACCESSORS_DISAGREE" : be && be->_name ? be->_name : "").emit();
 			}
 			else if (c == "lookbme")
 			{
 				const F8MetaCntx& m(cx(t[1]));
 				const std::string key(pj::unhex(t[2]));
 				const BaseMsgEntry *a(m.find_bme(key.c_str())), *b(m._bme.find_ptr(key.c_str()));
+				{
+					// find_pair_ptr / find_ref must agree with find_ptr; a disagreement is reported as "not the same entry"
+					auto pr(m._bme.find_pair_ptr(key.c_str()));
+					const BaseMsgEntry *c2(pr ? &pr->_value : nullptr), *c3(nullptr);
+					try { c3 = &m._bme.find_ref(key.c_str()); } catch (f8Exception&) { c3 = nullptr; }
+					if (c2 != b || c3 != b) b = reinterpret_cast<const BaseMsgEntry *>(&g_poison_be);
+				}
 				bool inside(false);
 				const std::string pk(a ? bme_key_of(m, a, inside) : std::string());
 				pj::Ev("Lookup").s("tab", "bme").s("key", key).b("hit", a != nullptr).b("same", a == b).s("ent", a && a->_name ? a->_name : "")
